@@ -434,6 +434,22 @@ def _classify_main(res, u, m):
         name = "%s::%s::%s" % (res["unit"], fn, kind)
         res["failures"].append({"obligation": name, "kind": kind, "function": fn, "where": where,
                                 "detail": callee, "rendered": d.get("rendered", "")[:3000]})
+    # A failed `assert` that lives in the TEMPLATE (a ghost proof step written for the shape the code had) is not an
+    # obligation of the property: Verus assumes it afterwards, and if every contract-level obligation of that function
+    # (postcondition, callee preconditions, bounds, overflow, termination, loop invariants) is then discharged, what failed is
+    # the proof script, not the code: the function is UNDECIDED ("proof step lost"), and the bounded driver decides whether a
+    # real input fails. (Found by the harmless-refactoring evaluation: an equivalent rewrite of add_quoted_string failed one
+    # ghost assert.) If any contract-level obligation of the function fails as well, the failure stands.
+    by_fn = {}
+    for f in res["failures"]:
+        by_fn.setdefault(f.get("function"), []).append(f)
+    for fn_name, fl in by_fn.items():
+        if fl and all(f["kind"] == "assert" and "(contract text)" in f.get("where", "") for f in fl):
+            for f in fl:
+                res["failures"].remove(f)
+                res["undecided"].append("proof step lost: ghost assertion of the template at %s fails in `%s` while every contract-level obligation of that "
+                                        "function is discharged under it: the proof script needs maintenance (not a violation by itself)" % (f.get("where", ""), fn_name))
+            res["status"] = "undecided"
     # a closure without contract that the verified tree did not have: Verus knows nothing about its result, so a failed
     # obligation in that function is "needs contract", not a violation (see vf/closures.py)
     try:
